@@ -388,6 +388,8 @@ func main() {
 			c = genUnluckyOrder(r)
 		case "stale":
 			c = genStaleLock(r)
+		case "skipover":
+			c = genSkipOverPolka(r)
 		default:
 			c = genRandom(r, 80, f[0] == "hostile")
 		}
@@ -414,6 +416,7 @@ func main() {
 				emit(genEquivPrecommitPastClaim(r))
 				emit(genUnluckyOrder(r))
 				emit(genStaleLock(r))
+				emit(genSkipOverPolka(r))
 				emit(genRandom(r, 60, false))
 				emit(genRandom(r, 160, false))
 				emit(genRandom(r, 60, true))
@@ -429,7 +432,7 @@ func main() {
 			}
 			return false
 		},
-		Rule: "n real consensus.State nodes in one process (one per correct validator; kvstore app, MockPV signer, in-memory stores, nil WAL, recording ticker with the durations the node asked for; 3..7 validators from 7 power configurations plus skewed validator sets reached through validator updates; faulty validators with < 1/3 of the power, possibly none), driven synchronously through handleMsg/handleTimeout. Every case = adversarial asynchronous prefix, the synchrony point, a synchronous suffix (closure = every logged message and every majority claim to every correct node until nothing changes; then one eligible timeout — net closed, no other timer due more than skew earlier — or a move of a faulty validator; repeat). Prefixes: random (partitions re-drawn, per-message delays and re-deliveries, timeouts at any time, faulty validators equivocating in votes and proposals, voting for future rounds, withholding, bogus majority claims) and scripted: two correct nodes locked on different blocks from different rounds; a node that sees the commit (+2/3 precommits) without the block, optionally pulled out of the commit step by +2/3 prevotes of the next round; most of the power walking through rounds by timeouts while one node is cut off and then skips them at once (skewed sets); a node in the commit step without proposal receiving an equivocating proposer's proposal for another block before the committed block's parts; locks from different rounds with the releasing polka completed only after the locked node has moved to a later round (faulty validator silent afterwards); a faulty validator's equivocated round-0 precommit that the remaining nodes, already in round 1, can admit only through the decider's majority claim for the past round; a suffix with an unlucky delivery order every round (one node gets precommits before prevotes, or all votes before the proposal and its block, while a faulty validator helps the others to their polka and withholds its own block precommit so that every correct precommit is needed); a lock that outlives its releasing polka (the polka is completed at the locked node while it is still in an earlier round, then the node skips past that round). Non-trivial = the case reached the synchrony point; distinct by hash of the op list",
+		Rule: "n real consensus.State nodes in one process (one per correct validator; kvstore app, MockPV signer, in-memory stores, nil WAL, recording ticker with the durations the node asked for; 3..7 validators from 7 power configurations plus skewed validator sets reached through validator updates; faulty validators with < 1/3 of the power, possibly none), driven synchronously through handleMsg/handleTimeout. Every case = adversarial asynchronous prefix, the synchrony point, a synchronous suffix (closure = every logged message and every majority claim to every correct node until nothing changes; then one eligible timeout — net closed, no other timer due more than skew earlier — or a move of a faulty validator; repeat). Prefixes: random (partitions re-drawn, per-message delays and re-deliveries, timeouts at any time, faulty validators equivocating in votes and proposals, voting for future rounds, withholding, bogus majority claims) and scripted: two correct nodes locked on different blocks from different rounds; a node that sees the commit (+2/3 precommits) without the block, optionally pulled out of the commit step by +2/3 prevotes of the next round; most of the power walking through rounds by timeouts while one node is cut off and then skips them at once (skewed sets); a node in the commit step without proposal receiving an equivocating proposer's proposal for another block before the committed block's parts; locks from different rounds with the releasing polka completed only after the locked node has moved to a later round (faulty validator silent afterwards); a faulty validator's equivocated round-0 precommit that the remaining nodes, already in round 1, can admit only through the decider's majority claim for the past round; a suffix with an unlucky delivery order every round (one node gets precommits before prevotes, or all votes before the proposal and its block, while a faulty validator helps the others to their polka and withholds its own block precommit so that every correct precommit is needed); a lock that outlives its releasing polka (the polka is completed at the locked node while it is still in an earlier round, then the node skips past that round); a multi-round skip over the round of the releasing polka, with every peer's catch-up rounds at the lagging node used up by stray votes first and the polka handed over only after the skip. Non-trivial = the case reached the synchrony point; distinct by hash of the op list",
 		Assumptions: []string{
 			"one height; a block id stands for (hash, part-set header) of a one-part block; block i is what createProposalBlock of validator i yields (checked at node construction); signatures ideal: correct nodes' messages are the objects they really signed, faulty validators' messages are signed by the harness with their keys",
 			"idealised gossip as in the property's quantifier: closure hands every logged message (proposals, block parts, votes of all rounds) and every +2/3 majority claim of every correct node to every correct node, repeatedly until no node changes; votes arrive from the peer of their signer (2 catch-up rounds per peer apply)",
